@@ -5,7 +5,7 @@ _ENG = {"crate": "core", "bin": "sv-c09", "machine": "c09", "nontrivial_min_ops"
 PROP = {
     "generated": ["ReconTables"],
     "lean_modules": ["SwimVerif.Model.Recon", "SwimVerif.Model.ReconProto", "SwimVerif.Proofs.Recon",
-                     "SwimVerif.Proofs.ReconStruct", "SwimVerif.Proofs.ReconStyles",
+                     "SwimVerif.Proofs.ReconFloat", "SwimVerif.Proofs.ReconStruct", "SwimVerif.Proofs.ReconStyles",
                      "SwimVerif.Generated.ReconTables"],
     "engines": [
         # model values -> real printers (exact text vs model print) and print/parse cycles (vs model parse)
@@ -25,7 +25,7 @@ PROP = {
             "one case = one grammar-generated document; chunks: one case = one document with every single cut (<= 400 "
             "bytes) or random multi-cuts; distinct = distinct op text (sha1)",
     "level_text": "Proof: un-escaping what the printer's escape_text wrote gives the string back for every string "
-                  "(never an error, never the surrogate panic); the printer's quoting decision is_identifier agrees "
+                  "(never an error), un-escaping and the model parser never panic; the printer's quoting decision is_identifier agrees "
                   "with the tokenizer's identifier for every string — both over tables regenerated from the sources; "
                   "every text / integer / byte string token is lexed back; parse(print v) = v (up to integer kinds, which "
                   "Value::eq ignores) and the fixed point after one cycle for each of the three printers on the stated fragment "
@@ -37,7 +37,7 @@ PROP = {
                   "hang on mutated and invalid input.",
     "level_note": "Labelled partial: parse-after-print is proved for the model parser (a reference recursive descent "
                   "that is tied to the real nom automaton by differential testing only), for the three styles, "
-                  "without floats; f64 <-> text (ryu, {:e}, str::parse) is not modelled — floats are exact "
+                  "floats as canonical shortest decimals; f64 <-> text (ryu, {:e}, str::parse) is not modelled — floats are exact "
                   "shortest decimals and generators stay where ryu and {:e} agree; chunk-insensitivity of the real "
                   "streaming decoder is tested, not proved.",
     "trusted_base": COMMON_TRUST + [
